@@ -224,6 +224,7 @@ func runC16(c *Ctx) {
 		}
 		ruleResetComplete(c, p)
 		ruleGrowByAppend(c, p, "C16.fresh")
+		ruleEncoderPure(c, p, "C16.pure")
 	}
 	p := c.Prog(core.CfgDefault)
 	if p == nil {
@@ -233,6 +234,7 @@ func runC16(c *Ctx) {
 	ruleDict(c, p, "C16.dict")
 	ruleRebuild(c, p, "C16.rebuild")
 	ruleNoAdopt(c, p, "C16.alias")
+	ruleAppendTail(c, p, "C16.tail")
 	ruleAdopt(c, p, "C16.adopt")
 	c.R.Assumptions = append(c.R.Assumptions,
 		"decided: Reset clears every content field that Append*/DecodeColumn/Prepare write; block decoding resets each accepted target on every path; Prepare renumbers the dictionary from a cleared map and index and rebuilds key columns from length 0; not decided: result equality after arbitrary histories")
@@ -803,80 +805,14 @@ func runC18(c *Ctx) {
 	}()
 
 	// ---- C18.custom
-	rule = "C18.custom"
-	c.R.Rule(rule, "all three column-header decoders (Results.DecodeResult, Results.decodeAuto, ColInfoInput.DecodeResult - and the no-target path of DecodeRawBlock) read the custom-serialization flag under the FeatureCustomSerialization gate and fail when it is set")
-	func() {
-		csK, _ := constOf(p, core.PkgProto, "FeatureCustomSerialization")
-		var fns []*ssa.Function
-		fns = append(fns, resultDecoders(c, p)...)
-		if ci := p.Method(core.PkgProto, "ColInfoInput", "DecodeResult"); ci != nil {
-			fns = append(fns, ci)
-		}
-		if rb := p.Method(core.PkgProto, "Block", "DecodeRawBlock"); rb != nil {
-			// the no-target path may have been moved into a helper: take the function that reads the flag
-			holder := rb
-			isBool := func(f *types.Func) bool { return core.IsMethod(f, core.PkgProto, "Reader", "Bool") }
-			if len(core.FindCalls(rb, isBool)) == 0 {
-				for _, call := range core.Calls(rb) {
-					if sf := core.StaticFn(call); sf != nil && sf.Blocks != nil && pkgOf(sf) != nil && pkgOf(sf).Path() == core.PkgProto && len(core.FindCalls(sf, isBool)) > 0 && core.RecvNamed2(sf) == nil {
-						holder = sf
-					}
-				}
-			}
-			fns = append(fns, holder)
-		}
-		for _, fn := range fns {
-			key := core.FuncName(fn)
-			gate := core.CondEdges(fn, true, func(cond ssa.Value) (bool, bool) {
-				k, _, ok := featureGate(cond)
-				return true, ok && k == csK
-			})
-			if len(gate) == 0 {
-				c.R.Bad(rule, key, cfg, p.Pos(fn.Pos()), "the custom-serialization flag is not read under its feature gate")
-				continue
-			}
-			// a Bool() read under the gate whose true edge only fails
-			okFlag := false
-			for _, call := range core.FindCalls(fn, func(f *types.Func) bool { return core.IsMethod(f, core.PkgProto, "Reader", "Bool") }) {
-				if !core.OnlyViaEdges(fn, call.(ssa.Instruction), gate) {
-					continue
-				}
-				var flag ssa.Value
-				for _, r := range *call.Value().Referrers() {
-					if e, ok := r.(*ssa.Extract); ok && e.Index == 0 {
-						flag = e
-					}
-				}
-				if flag == nil {
-					continue
-				}
-				al := core.Aliases(fn, flag)
-				tr := core.CondEdges(fn, true, func(cond ssa.Value) (bool, bool) { return true, al[cond] })
-				for _, e := range tr {
-					start := core.Point{B: e.B.Succs[e.Succ], I: -1}
-					w := core.ReachAvoiding(start, func(in ssa.Instruction) bool {
-						if r, ok := in.(*ssa.Return); ok {
-							return defaultSuccess(fn, r)
-						}
-						return core.IsCallOf(in, isColMethod("DecodeColumn"))
-					}, nil, nil)
-					if len(w) == 0 {
-						okFlag = true
-					}
-				}
-			}
-			if okFlag {
-				c.R.Ok(rule, key, cfg, p.Pos(fn.Pos()), "flag read under the gate; set flag fails")
-			} else {
-				c.R.Bad(rule, key, cfg, p.Pos(fn.Pos()), "a set custom-serialization flag does not fail the decode")
-			}
-		}
-	}()
+	ruleCustomFlag(c, p, "C18.custom")
 
 	ruleResetBefore(c, p, "C18.reset")
 	ruleColumnCount(c, p, "C18.colcount")
 	ruleConflictsSymm(c, p, "C18.symm")
 	ruleEndMarker(c, p, "C18.endmarker")
+	ruleCountCases(c, p, "C18.count")
+	ruleInferErrors(c, p, "C18.infer-errors")
 	ruleAdopt(c, p, "C18.adopt")
 	ruleInferTables(c, p, "C18")
 	c.R.Assumptions = append(c.R.Assumptions,
@@ -1158,4 +1094,329 @@ func resetClearPoints(p *core.Program, reset *ssa.Function, named *types.Named) 
 		}
 	}
 	return out
+}
+
+// ruleCustomFlag (C18.custom / C13.custom): the custom-serialization flag is read under its revision gate and rejected when set.
+func ruleCustomFlag(c *Ctx, p *core.Program, rule string) {
+	cfg := p.Cfg.Name
+	c.R.Rule(rule, "all three column-header decoders (Results.DecodeResult, Results.decodeAuto, ColInfoInput.DecodeResult - and the no-target path of DecodeRawBlock) read the custom-serialization flag under the FeatureCustomSerialization gate and fail when it is set")
+	func() {
+		csK, _ := constOf(p, core.PkgProto, "FeatureCustomSerialization")
+		var fns []*ssa.Function
+		fns = append(fns, resultDecoders(c, p)...)
+		if ci := p.Method(core.PkgProto, "ColInfoInput", "DecodeResult"); ci != nil {
+			fns = append(fns, ci)
+		}
+		if rb := p.Method(core.PkgProto, "Block", "DecodeRawBlock"); rb != nil {
+			// the no-target path may have been moved into a helper: take the function that reads the flag
+			holder := rb
+			isBool := func(f *types.Func) bool { return core.IsMethod(f, core.PkgProto, "Reader", "Bool") }
+			if len(core.FindCalls(rb, isBool)) == 0 {
+				for _, call := range core.Calls(rb) {
+					if sf := core.StaticFn(call); sf != nil && sf.Blocks != nil && pkgOf(sf) != nil && pkgOf(sf).Path() == core.PkgProto && len(core.FindCalls(sf, isBool)) > 0 && core.RecvNamed2(sf) == nil {
+						holder = sf
+					}
+				}
+			}
+			fns = append(fns, holder)
+		}
+		for _, fn := range fns {
+			key := core.FuncName(fn)
+			gate := core.CondEdges(fn, true, func(cond ssa.Value) (bool, bool) {
+				k, _, ok := featureGate(cond)
+				return true, ok && k == csK
+			})
+			if len(gate) == 0 {
+				c.R.Bad(rule, key, cfg, p.Pos(fn.Pos()), "the custom-serialization flag is not read under its feature gate")
+				continue
+			}
+			// a Bool() read under the gate whose true edge only fails
+			okFlag := false
+			for _, call := range core.FindCalls(fn, func(f *types.Func) bool { return core.IsMethod(f, core.PkgProto, "Reader", "Bool") }) {
+				if !core.OnlyViaEdges(fn, call.(ssa.Instruction), gate) {
+					continue
+				}
+				var flag ssa.Value
+				for _, r := range *call.Value().Referrers() {
+					if e, ok := r.(*ssa.Extract); ok && e.Index == 0 {
+						flag = e
+					}
+				}
+				if flag == nil {
+					continue
+				}
+				al := core.Aliases(fn, flag)
+				tr := core.CondEdges(fn, true, func(cond ssa.Value) (bool, bool) { return true, al[cond] })
+				for _, e := range tr {
+					start := core.Point{B: e.B.Succs[e.Succ], I: -1}
+					w := core.ReachAvoiding(start, func(in ssa.Instruction) bool {
+						if r, ok := in.(*ssa.Return); ok {
+							return defaultSuccess(fn, r)
+						}
+						return core.IsCallOf(in, isColMethod("DecodeColumn"))
+					}, nil, nil)
+					if len(w) == 0 {
+						okFlag = true
+					}
+				}
+			}
+			if okFlag {
+				c.R.Ok(rule, key, cfg, p.Pos(fn.Pos()), "flag read under the gate; set flag fails")
+			} else {
+				c.R.Bad(rule, key, cfg, p.Pos(fn.Pos()), "a set custom-serialization flag does not fail the decode")
+			}
+		}
+	}()
+}
+
+// ruleEncoderPure (C16.pure): encoding does not modify the column.
+func ruleEncoderPure(c *Ctx, p *core.Program, rule string) {
+	c.R.Rule(rule, "EncodeColumn / WriteColumn / EncodeState of a column type do not write to the column's own memory: no store to an address derived from the receiver (fields, elements, or a byte view obtained through unsafe), and no receiver-derived slice handed to an in-place writer (bswap.Swap64, the destination of copy, encoding/binary Put*): a zero-copy encoder that transforms the rows in place sends correct bytes once and leaves the column changed, so encoding again (or reading rows back) yields different values")
+	cfg := p.Cfg.Name
+	n := 0
+	for _, ct := range columnTypes(p) {
+		for _, mn := range []string{"EncodeColumn", "WriteColumn", "EncodeState"} {
+			fn := methodOf(p, ct, mn)
+			if fn == nil || fn.Blocks == nil || len(fn.Params) == 0 {
+				continue
+			}
+			n++
+			key := ct.Obj().Name() + "." + mn
+			recv := fn.Params[0]
+			fromRecv := func(v ssa.Value) bool {
+				return core.DependsOn(v, func(x ssa.Value) bool { return x == ssa.Value(recv) }, false)
+			}
+			bad := false
+			report := func(pos token.Pos, what string) {
+				if !bad {
+					bad = true
+					c.R.Bad(rule, key, cfg, p.Pos(pos), what)
+				}
+			}
+			for _, b := range fn.Blocks {
+				for _, in := range b.Instrs {
+					switch x := in.(type) {
+					case *ssa.Store:
+						// writes into memory the receiver points to: element / field behind a pointer, not the local copy of a value receiver
+						switch a := x.Addr.(type) {
+						case *ssa.IndexAddr:
+							if fromRecv(a.X) {
+								if _, isLocalArr := a.X.(*ssa.Alloc); !isLocalArr {
+									report(x.Pos(), "an element of the column's storage is assigned while encoding")
+								}
+							}
+						case *ssa.FieldAddr:
+							if a.X == ssa.Value(recv) {
+								if _, isPtr := recv.Type().Underlying().(*types.Pointer); isPtr {
+									report(x.Pos(), "a field of the column is assigned while encoding")
+								}
+							}
+						}
+					case ssa.CallInstruction:
+						cc := x.Common()
+						var dst ssa.Value
+						if bi, ok := cc.Value.(*ssa.Builtin); ok && bi.Name() == "copy" {
+							dst = cc.Args[0]
+						} else if f := core.CalleeFunc(x); f != nil && f.Pkg() != nil {
+							switch {
+							case strings.HasSuffix(f.Pkg().Path(), "/bswap") && strings.HasPrefix(f.Name(), "Swap"):
+								dst = cc.Args[0]
+							case f.Pkg().Path() == "encoding/binary" && strings.HasPrefix(f.Name(), "Put") && len(cc.Args) >= 2:
+								dst = cc.Args[len(cc.Args)-2]
+							}
+						}
+						if dst != nil && fromRecv(dst) {
+							report(x.Pos(), "a byte view of the column's own memory is handed to an in-place writer ("+core.InstrString(x)+"): the rows are transformed inside the column")
+						}
+					}
+				}
+			}
+			if !bad {
+				c.R.Ok(rule, key, cfg, p.Pos(fn.Pos()), "column memory only read").Trivial = true
+			}
+		}
+	}
+	c.R.Floor(rule, cfg, n, 80)
+}
+
+// ruleAppendTail (C16.tail): Append* writes only behind the rows the column already has.
+func ruleAppendTail(c *Ctx, p *core.Program, rule string) {
+	c.R.Rule(rule, "in every Append* method of a column type, an indexed store into the column's storage (x[i] = ... where x is the column slice or the result of growing it) uses an index that depends on the previous length (len of the column's slice): an index that starts at 0 overwrites the rows already present and leaves zero values at the tail when the column was not empty")
+	cfg := p.Cfg.Name
+	n := 0
+	for _, ct := range columnTypes(p) {
+		for i := 0; i < ct.NumMethods(); i++ {
+			m := ct.Method(i)
+			if !strings.HasPrefix(m.Name(), "Append") {
+				continue
+			}
+			fn := p.Prog.FuncValue(m)
+			if fn == nil || fn.Blocks == nil || len(fn.Params) == 0 {
+				continue
+			}
+			recv := fn.Params[0]
+			fromRecv := func(v ssa.Value) bool {
+				return core.DependsOn(v, func(x ssa.Value) bool { return x == ssa.Value(recv) }, true)
+			}
+			key := ct.Obj().Name() + "." + m.Name()
+			for _, b := range fn.Blocks {
+				for _, in := range b.Instrs {
+					st, ok := in.(*ssa.Store)
+					if !ok {
+						continue
+					}
+					ia, ok := st.Addr.(*ssa.IndexAddr)
+					if !ok || !fromRecv(ia.X) {
+						continue
+					}
+					if _, isArr := ia.X.Type().Underlying().(*types.Pointer); isArr {
+						continue // element of a fixed-size array value, not the row storage
+					}
+					n++
+					usesLen := core.DependsOn(ia.Index, func(x ssa.Value) bool {
+						cl, ok := x.(*ssa.Call)
+						if !ok {
+							return false
+						}
+						bi, ok := cl.Call.Value.(*ssa.Builtin)
+						return ok && bi.Name() == "len" && fromRecv(cl.Call.Args[0])
+					}, false)
+					if usesLen {
+						c.R.Ok(rule, key, cfg, p.Pos(st.Pos()), "index offset by the previous length")
+					} else {
+						c.R.Bad(rule, key, cfg, p.Pos(st.Pos()), "Append stores into the column's storage at an index that does not depend on the number of rows already present: on a non-empty column the new values overwrite the old rows")
+					}
+				}
+			}
+		}
+	}
+	c.R.Count("indexed stores in Append* methods["+cfg+"]", n)
+	if n == 0 {
+		c.R.Ok(rule, "Append*", cfg, "", "no Append* method stores by index (all grow by append)").Trivial = true
+	}
+}
+
+// ruleCountCases (C18.count): the column-count check, evaluated for the sign cases.
+func ruleCountCases(c *Ctx, p *core.Program, rule string) {
+	c.R.Rule(rule, "case evaluation of the entry check of Results.DecodeResult: with the announced column count, the number of targets and the row count fixed to representative values, the conditions over exactly these three quantities are folded (through && / || / boolean locals) and no read from the wire may remain reachable when the counts differ - except for the header-only case (no targets and no rows); in particular rows with no targets must be refused, or the column data stays unread in the stream")
+	cfg := p.Cfg.Name
+	fn := p.Method(core.PkgProto, "Results", "DecodeResult")
+	if !c.must(p, "proto.Results.DecodeResult", fn != nil) {
+		return
+	}
+	rd := readerClass(p)
+	type cs struct {
+		cols, targets, rows int64
+		mustFail            bool
+	}
+	cases := []cs{{2, 0, 5, true}, {2, 3, 0, true}, {2, 3, 5, true}, {1, 2, 7, true}, {2, 0, 0, false}, {2, 2, 4, false}}
+	recv := fn.Params[0]
+	var leaf func(v ssa.Value, k cs) (int64, bool)
+	leaf = func(v ssa.Value, k cs) (int64, bool) {
+		v = stripConv(v)
+		if n, ok := core.ConstInt(v); ok {
+			return n, true
+		}
+		switch o := core.FieldOrigin(v, 0); {
+		case strings.HasSuffix(o, "Block.Columns"):
+			return k.cols, true
+		case strings.HasSuffix(o, "Block.Rows"):
+			return k.rows, true
+		}
+		if cl, ok := v.(*ssa.Call); ok {
+			if bi, ok := cl.Call.Value.(*ssa.Builtin); ok && bi.Name() == "len" && core.DependsOn(cl.Call.Args[0], func(x ssa.Value) bool { return x == ssa.Value(recv) }, false) {
+				return k.targets, true
+			}
+		}
+		return 0, false
+	}
+	bad := false
+	for _, k := range cases {
+		k := k
+		feas := core.FeasibleUnder(fn, func(cond ssa.Value) int {
+			bo, ok := cond.(*ssa.BinOp)
+			if !ok {
+				return -1
+			}
+			a, ok1 := leaf(bo.X, k)
+			b, ok2 := leaf(bo.Y, k)
+			if !ok1 || !ok2 {
+				return -1
+			}
+			var r bool
+			switch bo.Op {
+			case token.EQL:
+				r = a == b
+			case token.NEQ:
+				r = a != b
+			case token.LSS:
+				r = a < b
+			case token.LEQ:
+				r = a <= b
+			case token.GTR:
+				r = a > b
+			case token.GEQ:
+				r = a >= b
+			default:
+				return -1
+			}
+			if r {
+				return 1
+			}
+			return 0
+		})
+		hits := core.ReachAvoiding(core.Entry(fn), func(x ssa.Instruction) bool {
+			call, ok := x.(ssa.CallInstruction)
+			return ok && rd(fn, call)
+		}, nil, feas)
+		key := sprintf("DecodeResult/columns=%d,targets=%d,rows=%d", k.cols, k.targets, k.rows)
+		switch {
+		case k.mustFail && len(hits) > 0:
+			bad = true
+			c.R.Bad(rule, key, cfg, p.Pos(hits[0].At.Pos()), "with these counts DecodeResult still reads from the wire instead of refusing the block: the mismatch goes unreported and the stream position no longer matches what was consumed")
+		case !k.mustFail && len(hits) == 0:
+			bad = true
+			c.R.Bad(rule, key, cfg, p.Pos(fn.Pos()), "with these (legal) counts DecodeResult never reads the column headers")
+		default:
+			c.R.Ok(rule, key, cfg, p.Pos(fn.Pos()), map[bool]string{true: "refused before any read", false: "decoded"}[k.mustFail])
+		}
+	}
+	_ = bad
+}
+
+// ruleInferErrors (C18.infer-errors): Infer fails when a parameter of the server's type cannot be adopted.
+func ruleInferErrors(c *Ctx, p *core.Program, rule string) {
+	c.R.Rule(rule, "E6 over every Infer method of a column type: the error of any call made while parsing the server's type (strconv, time.LoadLocation, nested Infer, parse helpers) reaches only failure exits - no success exit is reachable from the call without crossing the nil edge of a test of that error; an Infer that swallows the error reports success although the parameter (time zone, precision, enum mapping) was not adopted")
+	cfg := p.Cfg.Name
+	var fns []*ssa.Function
+	for _, ct := range columnTypes(p) {
+		if fn := methodOf(p, ct, "Infer"); fn != nil && fn.Blocks != nil {
+			fns = append(fns, fn)
+		}
+	}
+	// ColEnum and friends are not in columnTypes when they have no own EncodeColumn: take every Infer of package proto
+	seen := map[*ssa.Function]bool{}
+	for _, f := range fns {
+		seen[f] = true
+	}
+	for _, fn := range p.Funcs() {
+		if pkgOf(fn) != nil && pkgOf(fn).Path() == core.PkgProto && fn.Name() == "Infer" && fn.Blocks != nil && !seen[fn] && core.RecvNamed2(fn) != nil {
+			fns = append(fns, fn)
+			seen[fn] = true
+		}
+	}
+	cls := func(fn *ssa.Function, call ssa.CallInstruction) bool {
+		if _, isDefer := call.(*ssa.Defer); isDefer {
+			return false
+		}
+		sig := call.Common().Signature()
+		if sig == nil {
+			return false
+		}
+		_, has := core.ReturnsError(sig)
+		return has
+	}
+	n := runErrDisc(c, p, fns, errDiscOpts{Rule: rule, Class: cls, Again: func(*ssa.Function, ssa.CallInstruction) bool { return false }})
+	c.R.Count("error-returning calls in Infer methods", n)
+	c.R.Floor(rule, cfg, n, 8)
 }
